@@ -42,6 +42,8 @@ Definition named (here : list key) (o : sop D) : list (list key) :=
   | OpDivide _ m ds _ => (here ++ [m]) :: map (fun d => here ++ [fst (fst d)]) ds
   | OpDelete _ k => [here ++ [k]]
   | OpDeletePath _ p => [here ++ p]
+  (* a plain value update of the child k: only the subtree of that child *)
+  | OpUpd _ k _ => [here ++ [k]]
   end.
 
 Definition outside (p : list key) (names : list (list key)) : Prop :=
@@ -538,6 +540,25 @@ Proof.
   - inversion H; subst. auto.
 Qed.
 
+(* a plain value update of a child: nothing happens when the key is no child; otherwise the child is replaced
+   by `cadd` of it; nothing is reported and no uid is consumed *)
+Lemma upd_inv vr t here k v uid t' rp uid' :
+  apply_opv vr t here (OpUpd D k v) uid = Ok (t', rp, uid') ->
+  exists u g c, cget t here = Some (CDir u g c) /\
+    ((alookup k c = None /\ t' = t) \/
+     (exists ch ch', alookup k c = Some ch /\ cadd (S (tdepth v)) ch v = Ok ch' /\
+                     cset t (here ++ [k]) ch' = Ok t')) /\
+    uid' = uid /\
+    rp = {| r_topology := []; r_process := []; r_step := []; r_flow := [];
+            r_deletions := []; r_expire := false |}.
+Proof.
+  intros H. open_op H Hd. exists u, g, c. split; [exact Hd|].
+  destruct (alookup k c) as [ch|] eqn:El.
+  - dres H ch' Ea. dres H t1 Ec. inversion H; subst.
+    split; [right; exists ch, ch'; auto|]. auto.
+  - inversion H; subst. split; [left; auto|]. auto.
+Qed.
+
 Lemma generate_inv vr t here k d init uid t' rp uid' :
   apply_opv vr t here (OpGenerate D k d init) uid = Ok (t', rp, uid') ->
   exists r, set_value mk_child (S (tdepth init)) (fst (build d uid)) init (snd (build d uid)) = Ok r
@@ -670,7 +691,7 @@ Qed.
 Theorem apply_op_frame vr t here o uid t' rp uid' q :
   apply_opv vr t here o uid = Ok (t', rp, uid') -> outside q (named here o) -> sig_at t' q = sig_at t q.
 Proof.
-  intros H Hout. destruct o as [k st|src tgt|src tgt|k d init|m ds ch|k|p].
+  intros H Hout. destruct o as [k st|src tgt|src tgt|k d init|m ds ch|k|p|k v].
   - apply add_inv in H. destruct H as (nd & Hs).
     apply (cset_frame _ _ _ _ _ Hs). apply Hout. left. reflexivity.
   - apply move_inv in H. destruct H as (u & g & c & node & t1 & _ & _ & _ & Hdl & Hs & _ & _).
@@ -687,6 +708,9 @@ Proof.
     apply (cdel_frame _ _ _ _ Hdl). apply Hout. left. reflexivity.
   - apply deletepath_inv in H. destruct H as ([Hdl| ->] & _); [|reflexivity].
     apply (cdel_frame _ _ _ _ Hdl). apply Hout. left. reflexivity.
+  - apply upd_inv in H.
+    destruct H as (u & g & c & _ & [(_ & ->)|(ch & ch' & _ & _ & Hs)] & _ & _); [reflexivity|].
+    apply (cset_frame _ _ _ _ _ Hs). apply Hout. left. reflexivity.
 Qed.
 
 Lemma insert_op_perm (o : sop D) l : Permutation (insert_op D o l) (o :: l).
